@@ -16,22 +16,23 @@ from dyn_gen import index
 #   eager       the clock advanced although a queued job could take a free slot
 #   urgent      the clock advanced although a wait could return / a cancellation or relay step was pending,
 #               or past an armed deadline
-#   cancel      which tasks are cancelled when a run leaves its loop (and hence which exit was taken)
+#   exit        whether a run leaves its main loop in reaction to a completion
+#   cancel      which tasks are cancelled when a run leaves its loop
 #   verdict     value returned / exception raised by a run          diag     failed_time_out / failed_critical
 #   sd          which jobs receive co_shutdown()                     sdto     which handlers are cancelled
 #   sdvalue     value returned by co_shutdown()
 ALWAYS = {"env:A1", "env:guard", "guard", "bad", "harness:translate"}
-ALL = {"start", "slot-limit", "eager", "urgent", "cancel", "verdict", "diag", "sd", "sdto", "sdvalue"}
+ALL = {"start", "slot-limit", "eager", "urgent", "exit", "cancel", "verdict", "diag", "sd", "sdto", "sdvalue"}
 RELEVANT = {
     "C01": ("A", {"start"}),
-    "C02": ("AB", {"start", "cancel", "verdict"}),
+    "C02": ("AB", {"start", "exit", "verdict"}),
     "C03": ("AB", ALL),
-    "C04": ("AB", {"start", "cancel", "verdict", "diag"}),
-    "C05": ("AB", {"start", "cancel", "urgent", "sdto"}),
+    "C04": ("AB", {"exit", "verdict", "diag"}),
+    "C05": ("AB", {"start", "exit", "cancel", "urgent", "sdto"}),
     "C06": ("AB", ALL),
     "C07": ("A", {"slot-limit"}),
-    "C08": ("AB", {"start", "cancel", "urgent", "verdict", "diag", "sdto"}),
-    "C09": ("AB", {"start", "cancel", "urgent", "verdict", "sdto"}),
+    "C08": ("AB", {"start", "exit", "cancel", "urgent", "verdict", "diag", "sdto"}),
+    "C09": ("AB", {"start", "exit", "cancel", "urgent", "verdict", "sdto"}),
     "C10": ("AB", ALL - {"sd", "sdto", "sdvalue"}),
     "C11": ("AB", {"start", "cancel", "urgent", "sd", "sdto"}),
     "C12": ("A", {"start", "eager", "urgent", "slot-limit"}),
@@ -229,7 +230,7 @@ def translate(sc, res, trace):
         last = lines[-1]
         stay = last[2] == "wenter" and last[3] == s and last[4] == "main"
         A.append("R_%d_%d_%s_%s" % (ids[s], 0 if stay else 1, enc(K), enc(S)))
-        B.append("R_%d~K=%s~S=%s" % (ids[s], enc(K), enc(S)))
+        B.append("R_%d~K=%s~S=%s~L=%d" % (ids[s], enc(K), enc(S), 0 if stay else 1))
         ack_unstarted(K)
         if not stay:
             phase[s] = "tidy"
